@@ -21,7 +21,36 @@ def mk_sel(chain, focus):
             "focus": {"var": focus, "as": focus}}
 
 
+def gen_failing_total(rng):
+    """A total probe on the generator function whose subscriber fails when a generator is wound up
+    (exhausted while running, closed, dropped): the driver's context is put back all the same --
+    its own calls afterwards are not taken for calls made inside the generator."""
+    gfn = rng.choice(["gen", "gen2", "gen4"])
+    chain, focus = rng.choice([([gfn, "g"], "a"), (["D", gfn, "g"], "a"), ([gfn, "g"], "a")])
+    cap = {"gen": "x", "gen2": "y", "gen4": "x"}[gfn]
+    ops = [{"op": "mk", "id": "p0", "kind": "probe", "sels": [mk_sel(chain, focus)], "inv": "C09.no_foreign_events"},
+           {"op": "mk", "id": "t0", "kind": "probe", "raw": True, "nojudge": True,
+            "sels": [{"levels": [{"fn": gfn, "caps": [{"var": cap, "as": cap}], "sibs": []}], "focus": None, "mode": "total"}]},
+           {"op": "enter", "id": "p0"}, {"op": "enter", "id": "t0"},
+           {"op": "stage", "id": "t0", "kind": "whole", "cap": None, "raises": rng.choice([1, 1, 2])}]
+    tape = lambda: gen_tape(rng, 6, hi=12, odd=0.45)
+    for k in range(rng.randint(1, 3)):
+        g = f"g{k}"
+        ops.append({"op": "gen_new", "gen": g, "fn": gfn, "nargs": 1})
+        for _ in range(rng.randint(1, 5)):
+            ops.append({"op": "gen_next", "gen": g, "tape": tape(), "faults": {}})
+            if rng.random() < 0.3:
+                ops.append({"op": "call", "fn": "g", "nargs": 1, "tape": [], "faults": {}})
+        ops.append({"op": rng.choice(["gen_close", "gen_next", "gen_next"]), "gen": g, "tape": [0, 0, 0], "faults": {}})
+        ops.append({"op": "call", "fn": "g", "nargs": 1, "tape": [], "faults": {}})
+    ops += [{"op": "exit", "id": "t0"}, {"op": "call", "fn": "g", "nargs": 1, "tape": [], "faults": {}},
+            {"op": "exit", "id": "p0"}, {"op": "call", "fn": "g", "nargs": 1, "tape": [], "faults": {}}]
+    return {"prog": "genctx", "ops": ops, "handlers_inv": "C09.driver_handlers", "exact_failures": True}
+
+
 def gen(rng, tier, quarantine=()):
+    if "no-failing-subscriber" not in quarantine and rng.random() < 0.08:
+        return gen_failing_total(rng)
     ops = []
     nprobes = rng.choice([1, 2, 2, 3])
     kinds = {}
